@@ -330,6 +330,15 @@ def run(case, ctx):
             ctx.violation("valid-assignment-refused/%s/%s" % (kind, r.cls()), "%s: set(%r, %r): %s"
                           % (cell, tag, v, str(r.exc)[:200]), prop="C18" if vlevel == 3 else None)
             return
+        if (len(repr(case["value"])) + vlevel) % 2:
+            # read back on the very object, before anything else is asked (in half of the cases:
+            # the other observations must not depend on it either)
+            g0 = call(ctx, "get (same object, first read)", line.get, tag)
+            ctx.count("first_reads")
+            if not g0.ok or not equal(kind, v, g0.value):
+                ctx.violation("first-read-differs/%s/%s" % (kind, g0.cls() if not g0.ok else "value"),
+                              "%s: set %r, the first get() gives %r" % (cell, v, g0.value if g0.ok else str(g0.exc)[:200]))
+                return
         dtr = call(ctx, "get_datatype", line.get_datatype, tag)
         want_dt = dt_forced or DEFAULT_DT[kind]
         if not dtr.ok or dtr.value != want_dt:
